@@ -37,6 +37,12 @@ Three further complete sub-products (each described at its section below):
            every mutation route (+=, add_to_data, add_to_data2, x = x + y, x += x) of a
            correlation function / spectral density: measured == declared == measurement of
            a new object holding the same data, after every step.
+  TIMEAXES every clause that involves the time axis itself - the reorganisation energy
+           measured from the data (a time / frequency integral), the frequency-domain parts
+           (their frequency axis is derived from the time axis) and the additivity of the data
+           on the axis - on every TimeAxis of the product  step x window  (AXES): addition
+           trees and in-place chains, list-built composites, sums of frequency-domain parts
+           and measurement histories, each as a complete sub-product with the axis.
 """
 import itertools
 
@@ -80,6 +86,65 @@ SD_LEAVES = {
 }
 ENERGY_KEYS = ("reorg", "freq", "gamma")
 NT, DT = 1500, 1.0
+
+# TIME-AXIS dimension.  Every case carries its axis [number of points, step in fs]; a case
+# without one lives on the axis (NT, DT) all sections were written for.  The product is
+# step {0.25, 0.5, 1, 2} fs  x  window {1500, 2000} fs  (length = window / step): step, length
+# and window vary independently of each other, so an integral that drops / doubles the step,
+# counts points instead of time, or depends on the window shows up.  The shortest window is the
+# one of the original axis: 15 correlation times of the slowest component (tail 3e-7).
+STEPS = [1.0, 2.0, 0.5, 0.25]
+WINDOWS = {"quick": [1500.0], "thorough": [1500.0, 2000.0]}
+# quick: all steps on the original window + the longer window at the coarsest step (the
+# window varies at a fixed step); thorough: the complete product
+EXTRA_AXES = {"quick": [[1000, 2.0]], "thorough": []}
+
+
+def axes(tier):
+    """All time axes of the tier, the original one first."""
+    out = []
+    for win in WINDOWS[tier]:
+        for st in STEPS:
+            out.append([int(round(win / st)), st])
+    for a in EXTRA_AXES[tier]:
+        if a not in out:
+            out.append(a)
+    assert out[0] == [NT, DT]
+    return out
+
+
+def axis_of(case):
+    n, dt = case.get("axis") or (NT, DT)
+    return isolation.qr().TimeAxis(0.0, int(n), float(dt))
+
+
+def axis_suffix(case):
+    """Key suffix of a case on another than the original axis."""
+    a = case.get("axis")
+    if not a or (int(a[0]), float(a[1])) == (NT, DT):
+        return ""
+    return "/time-axis-step-%gfs-length-%d" % (float(a[1]), int(a[0]))
+
+
+def cf_measure_tolerance(names, ta):
+    """Relative tolerance (class T, computed) of  measured == declared  for a sum of overdamped
+    Brownian components (Im C(t) = -sum_i lam_i/tau_i exp(-t/tau_i)) on the axis ta:
+      * truncation: the integral stops at the last point of the axis, the missing tail is
+        lam_i exp(-t_last/tau_i) exactly;
+      * quadrature: the error of the coarsest consistent rule on the grid, the second-order
+        (trapezoidal) one, for an exponential:  lam_i [(h/tau_i)/(1-exp(-h/tau_i)) - h/(2 tau_i)
+        - 1] <= lam_i (h/tau_i)^2/12  (the library's spline quadrature is far below it);
+      * rounding 1e-10.
+    Never above the 1e-3 the clause has always been checked with."""
+    t_last = float(ta.data[-1])
+    h = float(ta.step)
+    tot, err = 0.0, 0.0
+    for n in names:
+        sp = CF_LEAVES[n]
+        tot += sp["reorg"]
+        err += sp["reorg"] * (numpy.exp(-t_last / sp["cortime"])
+                              + (h / sp["cortime"]) ** 2 / 12.0)
+    return min(1e-3, err / tot + 1e-10)
 
 # Alphabets.  CORE: the leaves the driver has always enumerated (+ UnderdampedBrownian for the
 # correlation function); they go up to the maximal number of leaves.  EXT: the remaining ftypes
@@ -162,9 +227,9 @@ _LEDGER = {}
 
 def ledger(cls, name, unit, ta, T=None):
     """The component `name` built on its own inside energy_units(unit).  Construction is a
-    deterministic function of (class, parameters, unit) on the fixed time axis, so the record
+    deterministic function of (class, parameters, unit, time axis), so the record
     is kept per worker process (records are never handed to the library)."""
-    key = (cls, name, unit, T)
+    key = (cls, name, unit, T, int(ta.length), float(ta.step))
     if key not in _LEDGER:
         _LEDGER[key] = Comp(make_leaf(cls, name, unit, ta, T))
     return _LEDGER[key]
@@ -309,7 +374,7 @@ def leaf_units(case, n):
 def eval_tree(case):
     qr = isolation.qr()
     cls, tree, addctx = case["cls"], case["tree"], case["add_ctx"]
-    ta = qr.TimeAxis(0.0, NT, DT)
+    ta = axis_of(case)
     viol = []
     built = built_leaves(tree)
     units = leaf_units(case, len(built))
@@ -319,7 +384,7 @@ def eval_tree(case):
     suffix = "/with-" + "+".join(special) if special else ""
 
     def done(res):
-        res["violations"] = _finish(viol, suffix)
+        res["violations"] = _finish(viol, suffix, axis_suffix(case))
         return res
 
     if case.get("optional"):
@@ -438,10 +503,16 @@ def eval_tree(case):
     if cls == "cf" and "v" not in lv and case.get("deep"):
         with qr.energy_units("1/cm"):
             meas = float(res.measure_reorganization_energy())
-        if abs(meas - decl_exp) > 1e-3 * decl_exp:
+        tolq = cf_measure_tolerance(lv, ta)
+        if not abs(meas - decl_exp) <= tolq * decl_exp:
             viol.append(("measured-reorganisation-energy/%s" % kind,
-                         "%s: measured %r 1/cm, declared %r" % (tree_str(tree), meas, decl_exp),
-                         None))
+                         "%s on TimeAxis(0, %d, %g): measured %r 1/cm, declared %r (computed "
+                         "truncation + quadrature tolerance %.2g)"
+                         % (tree_str(tree), ta.length, ta.step, meas, decl_exp, tolq), None))
+        if not bool(res.reorganization_energy_consistent()):
+            viol.append(("reorganization-energy-consistent-false/cf/%s" % kind,
+                         "%s on TimeAxis(0, %d, %g): reorganization_energy_consistent() is "
+                         "False" % (tree_str(tree), ta.length, ta.step), None))
         from quantarhei.qm.corfunctions.correlationfunctions import (
             EvenFTCorrelationFunction, OddFTCorrelationFunction)
         with qr.energy_units("int"):
@@ -460,7 +531,8 @@ def eval_tree(case):
                                  "%s: %s FT part deviates from %s parity by %g (scale %g)"
                                  % (tree_str(tree), nm, nm, dev, sc), None))
     return done({"nontrivial": len(lv) >= 2,
-                 "outcome": [tree_str(tree), ustr, addctx, round(float(res.lamb), 9),
+                 "outcome": [tree_str(tree), ustr, addctx, case.get("axis"),
+                             round(float(res.lamb), 9),
                              round(float(numpy.abs(numpy.asarray(res.data)).sum()), 9)]})
 
 
@@ -512,7 +584,7 @@ def seq_str(seq):
 def eval_list(case):
     qr = isolation.qr()
     cls, seq, unit, route = case["cls"], case["seq"], case["unit"], case["route"]
-    ta = qr.TimeAxis(0.0, NT, DT)
+    ta = axis_of(case)
     viol = []
     names = [n for n, _ in seq]
     temps = sorted(set(float(T) for _, T in seq))
@@ -521,7 +593,7 @@ def eval_list(case):
     label = "%s built in %s (%s)" % (seq_str(seq), unit, route)
 
     def done(res):
-        res["violations"] = _finish(viol, suffix)
+        res["violations"] = _finish(viol, suffix, axis_suffix(case))
         return res
 
     plist = [params_of(cls, n, unit, T) for n, T in seq]
@@ -535,16 +607,19 @@ def eval_list(case):
     except Exception as e:
         if cls == "cf" and len(temps) > 1:
             return done({"nontrivial": True,
-                         "outcome": ["list-refused-different-T", seq_str(seq), unit, route]})
+                         "outcome": ["list-refused-different-T", seq_str(seq), unit, route,
+                                     case.get("axis")]})
         viol.append(("admissible-composite-refused/%s" % variant,
                      "%s raised: %s" % (label, str(e)[:100]), None))
-        return done({"nontrivial": True, "outcome": ["list-refused", seq_str(seq), unit, route]})
+        return done({"nontrivial": True,
+                     "outcome": ["list-refused", seq_str(seq), unit, route, case.get("axis")]})
     if cls == "cf" and len(temps) > 1:
         viol.append(("different-temperatures-accepted/%s" % variant,
                      "%s was accepted although the temperatures %s differ (temperature "
                      "reported: %r)" % (label, temps, getattr(f, "temperature", None)), None))
         return done({"nontrivial": True,
-                     "outcome": ["list-accepted-different-T", seq_str(seq), unit, route]})
+                     "outcome": ["list-accepted-different-T", seq_str(seq), unit, route,
+                                     case.get("axis")]})
     kind = _kind_of(cls, names)
     decl_exp = sum(spec_of(cls, n)["reorg"] for n in names)
     if vals is None:
@@ -610,7 +685,8 @@ def eval_list(case):
                              "%s: copy().lamb %r, original %r"
                              % (label, float(cp.lamb), float(f.lamb)), None))
     return done({"nontrivial": len(seq) >= 2,
-                 "outcome": [seq_str(seq), unit, route, round(float(f.lamb), 9),
+                 "outcome": [seq_str(seq), unit, route, case.get("axis"),
+                             round(float(f.lamb), 9),
                              round(float(numpy.abs(numpy.asarray(f.data)).sum()), 9)]})
 
 
@@ -713,7 +789,7 @@ def _ft_build(tree, objs, viol):
 def eval_ftsum(case):
     qr = isolation.qr()
     tree, route = case["tree"], case["route"]
-    ta = qr.TimeAxis(0.0, NT, DT)
+    ta = axis_of(case)
     viol = []
     syms = sorted(set(leaves_of(tree)))
     sources, objs, snap = {}, {}, {}
@@ -775,8 +851,9 @@ def eval_ftsum(case):
                              "operand (deviation %g, scale %g)"
                              % (tree_str(tree), s_, nm, dev, sc_), None))
     out = numpy.asarray(res.data) if res is not None else expected
-    return {"nontrivial": len(lv) >= 2, "violations": _finish(viol, ""),
-            "outcome": [tree_str(tree), route, round(float(numpy.abs(out).sum()), 9)]}
+    return {"nontrivial": len(lv) >= 2, "violations": _finish(viol, "", axis_suffix(case)),
+            "outcome": [tree_str(tree), route, case.get("axis"),
+                        round(float(numpy.abs(out).sum()), 9)]}
 
 
 def _has_part(tree, part):
@@ -867,7 +944,7 @@ def _measure(cls, x, ctx, names, ta, viol, where, full=True):
         with qr.energy_units(ctx):
             mref = float(holder.measure_reorganization_energy())
         want = _conv(sum(CF_LEAVES[n]["reorg"] for n in names), ctx)
-        tolq = 1e-3
+        tolq = cf_measure_tolerance(names, ta)
     else:
         meas = float(x.measure_reorganization_energy())
         holder = qr.SpectralDensity(x.axis, [dict(ftype="Value-defined", reorg=lam, T=300.0)],
@@ -878,7 +955,8 @@ def _measure(cls, x, ctx, names, ta, viol, where, full=True):
     tag = "%s/measured-in-%s" % (cls, ctx)
     if not abs(meas - want) <= tolq * abs(want):
         viol.append(("measured-reorganisation-energy/history/%s" % tag,
-                     "%s: measured %r, declared %r (units: %s)" % (where, meas, want, ctx),
+                     "%s on TimeAxis(0, %d, %g): measured %r, declared %r (units: %s; "
+                     "tolerance %.2g)" % (where, ta.length, ta.step, meas, want, ctx, tolq),
                      None))
     if not abs(meas - mref) <= 1e-10 * abs(mref):
         viol.append(("measured-reorganisation-energy-not-of-current-data/%s" % tag,
@@ -908,7 +986,7 @@ def hist_str(case):
 def eval_measure(case):
     qr = isolation.qr()
     cls, start, steps = case["cls"], case["start"], case["steps"]
-    ta = qr.TimeAxis(0.0, NT, DT)
+    ta = axis_of(case)
     viol = []
     hs = hist_str(case)
     if start[0] == "leaf":
@@ -940,7 +1018,8 @@ def eval_measure(case):
             except MemoryError as e:
                 viol.append(("self-addition-does-not-return/%s/add_to_data" % cls,
                              "%s: %s" % (where, e), None))
-                return {"nontrivial": True, "outcome": ["hang"], "violations": viol}
+                return {"nontrivial": True, "outcome": ["hang"],
+                        "violations": _finish(viol, "", axis_suffix(case))}
             finally:
                 signal.alarm(0)
                 signal.signal(signal.SIGALRM, old_h)
@@ -999,46 +1078,112 @@ def eval_measure(case):
             viol.append(("second-measurement-differs/%s/measured-in-%s" % (cls, ctx),
                          "%s: measured %r, measured again %r" % (hs, first[ctx], again), None))
     last = first["int"]
-    return {"nontrivial": len(steps) >= 1, "violations": _finish(viol, ""),
-            "outcome": [hs, case["operand_measured"], round(float(last) * 1e6, 6)]}
+    return {"nontrivial": len(steps) >= 1, "violations": _finish(viol, "", axis_suffix(case)),
+            "outcome": [hs, case["operand_measured"], case.get("axis"),
+                        round(float(last) * 1e6, 6)]}
 
 
-def measure_cases(tier):
+def _histories(cls, starts, leaves, kmax):
+    mflags = [0] + MEAS_CTX[cls]
+    choices = [[op, y] for op in MEAS_OPS for y in leaves] + [["iadd-self", None],
+                                                                     ["add_to_data-self", None]]
+    for st in starts:
+        for k in range(0, kmax + 1):
+            for ops in itertools.product(choices, repeat=k):
+                for ms in itertools.product(mflags, repeat=k):
+                    yield st, [[o[0], o[1], m] for o, m in zip(ops, ms)]
+
+
+def _plan_cases(plan, axis=None):
+    """Measurement histories of a plan [(starts, operand leaves, max steps, operand measured
+    before use?)] for both classes, on one time axis."""
     cs = []
     for cls in ("cf", "sd"):
-        mflags = [0] + MEAS_CTX[cls]
-
-        def histories(starts, leaves, kmax):
-            choices = [[op, y] for op in MEAS_OPS for y in leaves] + [["iadd-self", None],
-                                                                             ["add_to_data-self", None]]
-            for st in starts:
-                for k in range(0, kmax + 1):
-                    for ops in itertools.product(choices, repeat=k):
-                        for ms in itertools.product(mflags, repeat=k):
-                            yield st, [[o[0], o[1], m] for o, m in zip(ops, ms)]
-        if tier == "quick":
-            plan = [([["leaf", "a"], ["leaf", "b"], ["list", ["a", "b"]]], ["a", "b"], 2,
-                     (False,)),
-                    ([["leaf", "a"], ["leaf", "b"], ["list", ["a", "b"]]], ["a", "b"], 1,
-                     (True,))]
-        else:
-            plan = [([["leaf", "a"], ["leaf", "b"], ["list", ["a", "b"]]], ["a", "b"], 2,
-                     (False, True)),
-                    ([["leaf", "a"], ["leaf", "b"], ["list", ["a", "b"]]], ["b"], 3,
-                     (False,)),
-                    ([["leaf", "a"], ["leaf", "b"], ["leaf", "c"], ["list", ["a", "b"]],
-                      ["list", ["b", "c", "a"]]], ["a", "b", "c"], 2, (False, True))]
         have = set()
         for starts, leaves, kmax, opms in plan:
-            for st, steps in histories(starts, leaves, kmax):
+            for st, steps in _histories(cls, starts, leaves, kmax):
                 for opm in opms:
                     c = {"kind": "measure", "cls": cls, "start": st, "steps": steps,
                          "operand_measured": opm}
+                    if axis is not None:
+                        c["axis"] = axis
                     k = hist_str(c) + str(opm)
                     if k not in have:
                         have.add(k)
                         cs.append(c)
     cs.sort(key=lambda c: len(c["steps"]))
+    return cs
+
+
+MEAS_STARTS = [["leaf", "a"], ["leaf", "b"], ["list", ["a", "b"]]]
+
+
+def measure_cases(tier):
+    if tier == "quick":
+        plan = [(MEAS_STARTS, ["a", "b"], 2, (False,)),
+                (MEAS_STARTS, ["a", "b"], 1, (True,))]
+    else:
+        plan = [(MEAS_STARTS, ["a", "b"], 2, (False, True)),
+                (MEAS_STARTS, ["b"], 3, (False,)),
+                ([["leaf", "a"], ["leaf", "b"], ["leaf", "c"], ["list", ["a", "b"]],
+                  ["list", ["b", "c", "a"]]], ["a", "b", "c"], 2, (False, True))]
+    return _plan_cases(plan)
+
+
+# =====================================================================================
+# Sub-product TIMEAXES: the clauses that involve the axis, on every time axis
+# =====================================================================================
+# What an axis enters: measure_reorganization_energy() is an integral over the time axis
+# (correlation function) / the frequency axis derived from it (spectral density); the
+# frequency-domain parts live on TimeAxis.get_FrequencyAxis(); UnderdampedBrownian correlation
+# functions are Fourier transforms on the axis; the data that are added have the length of the
+# axis.  Every other time axis of axes(tier) x
+#   TREES    every '+' tree / in-place chain with <= 3 leaves over the core alphabet (leaves
+#            built inside energy_units('1/cm'), additions without a context): all oracles of
+#            the addition trees; for sums of analytic components measured == declared (class T
+#            tolerance computed for the axis), reorganization_energy_consistent(), parities of
+#            the even / odd parts built from the component list
+#   LIST     every list-built composite with <= 2 (quick) / <= 3 (thorough) components of the
+#            core shapes x temperature per position x route
+#   FTSUM    every '+' tree with <= 2 (quick) / <= 3 (thorough) leaves over the shared
+#            frequency-domain parts x route
+#   MEASURE  every measurement history with <= 1 (quick) / <= 2 (thorough) mutation steps;
+#            with one step: operands measured before use or not
+# All of them are the generators of the sections above with the axis as one more factor.
+def timeaxis_cases(tier):
+    q = tier == "quick"
+    cs = []
+    for ax in axes(tier)[1:]:
+        for cls in ("cf", "sd"):
+            for t in expressions(CORE[cls], 3, tier):
+                nb = len(built_leaves(t))
+                deep = all(x in ("a", "b", "c", "self") for x in leaves_of(t))
+                cs.append({"cls": cls, "tree": t, "leaf_units": ["1/cm"] * nb, "add_ctx": None,
+                           "deep": deep, "axis": ax})
+            temps = LIST_T if cls == "cf" else LIST_T[:1]
+            syms = [(x, T) for x in LIST_CORE[cls] for T in temps]
+            for n in range(1, (2 if q else 3) + 1):
+                for sq in itertools.product(syms, repeat=n):
+                    for route in (("params", "values") if cls == "cf" else ("params",)):
+                        cs.append({"kind": "list", "cls": cls, "seq": [list(x) for x in sq],
+                                   "unit": "1/cm", "route": route, "axis": ax})
+        alpha = ["E:a", "O:a", "F:a", "E:b", "O:b", "F:b", "E:ab", "O:ab"]
+        for n in range(1, (2 if q else 3) + 1):
+            for t in all_trees(alpha, n):
+                if _ft_admissible(t):
+                    for route in ("getter", "constructor"):
+                        cs.append({"kind": "ftsum", "tree": t, "route": route, "axis": ax})
+        cs += _plan_cases([(MEAS_STARTS, ["a", "b"], 1 if q else 2, (False,)),
+                           (MEAS_STARTS, ["a", "b"], 1, (True,))], axis=ax)
+
+    def size(c):
+        # simplest first; among equally large cases the integrals before the sums
+        if c.get("kind") == "list":
+            return (len(c["seq"]), 3)
+        if c.get("kind") == "measure":
+            return (1 + len(c["steps"]), 0)
+        return (len(leaves_of(c["tree"])), 2 if c.get("kind") == "ftsum" else 1)
+    cs.sort(key=size)
     return cs
 
 
@@ -1050,12 +1195,13 @@ def eval_case(case):
 
 
 
-def _finish(viol, suffix):
+def _finish(viol, suffix, axis_sfx=""):
     """One violation per key; cases containing a component of the extended / optional ftypes
-    carry those ftypes in every result-level key (per-component keys name the ftype anyway)."""
+    carry those ftypes in every result-level key (per-component keys name the ftype anyway);
+    cases on another than the original time axis carry the axis in every key."""
     seen, out = set(), []
     for v in viol:
-        key = v[0] if v[0].startswith("component-") else v[0] + suffix
+        key = (v[0] if v[0].startswith("component-") else v[0] + suffix) + axis_sfx
         if key not in seen:
             seen.add(key)
             out.append((key,) + tuple(v[1:]))
@@ -1197,7 +1343,8 @@ def tree_cases(tier):
 
 SECTIONS = [("addition-trees", tree_cases), ("list-built-composites", list_cases),
             ("sums-of-frequency-domain-parts", ftsum_cases),
-            ("measurement-histories", measure_cases)]
+            ("measurement-histories", measure_cases),
+            ("time-axes", timeaxis_cases)]
 
 
 def cases(tier):
@@ -1216,6 +1363,9 @@ def run(run):
                 "sequences of components x temperature per position x unit x route); every '+' "
                 "tree over shared frequency-domain part objects x route to the part, evaluated "
                 "twice; every history of measurements and mutation routes on one object; "
+                "every other time axis of the product step x window x (addition trees over the "
+                "core alphabet, list-built composites, sums of frequency-domain parts, "
+                "measurement histories); "
                 "non-trivial = at least two leaves / components / one mutation step")
     run.assumptions = ["components' own data (each built separately by the library) are the "
                        "additivity ledger; the analytic formulas themselves belong to C06",
@@ -1228,6 +1378,10 @@ def run(run):
                        "last frequency (class T) and UnderdampedBrownian (2e-3), measured in "
                        "internal units only (SpectralDensity.measure_reorganization_energy does "
                        "not convert to the current units)",
+                       "measured == declared (correlation function): class T tolerance computed "
+                       "per axis = truncated tail exp(-t_last/tau) + error bound of the "
+                       "second-order rule (h/tau)^2/12 + 1e-10, never above 1e-3; all windows "
+                       ">= 15 correlation times of the slowest component",
                        "frequency-domain parts: a complex-valued part (FTCorrelationFunction) is "
                        "only added to a complex-valued left operand; FTCorrelationFunction of a "
                        "single component only (of a composite it is not part of the statement)",
@@ -1235,6 +1389,10 @@ def run(run):
                        "probed only: %r" % OPTIONAL]
     q = run.tier == "quick"
     run.bounds = {"max_leaves": 3 if q else 4, "time_axis": [NT, DT],
+                  "time_axes": {"axes_length_step": axes(run.tier), "max_leaves": 3,
+                                "list_max_components": 2 if q else 3,
+                                "ft_part_sums_max_leaves": 2 if q else 3,
+                                "max_mutation_steps": 1 if q else 2},
                   "max_leaves_extended_ftypes": 2 if q else 3,
                   "construction_units": UNITS[run.tier],
                   "list_built": {"max_components": 3 if q else 4, "temperatures": LIST_T,
